@@ -1,8 +1,13 @@
 package driver
 
 import (
+	"bytes"
 	"fmt"
+	"os"
+	"os/exec"
+	"path/filepath"
 	"sort"
+	"strings"
 	"time"
 )
 
@@ -109,4 +114,51 @@ func simVariant(s *Spec) string {
 		return s.Also[0]
 	}
 	return s.Main
+}
+
+// SelfTestRaceSense builds simrt/cmd/racesense with -race and requires a report in every
+// execution of the racy modes and none in the locked / independent modes, with identical
+// schedule traces, at GOMAXPROCS 1, 4 and 16.
+func SelfTestRaceSense(e *Env) int {
+	bin := filepath.Join(e.Scratch, "racesense")
+	cmd := exec.Command("go", "build", "-race", "-o", bin, "./cmd/racesense")
+	cmd.Dir = filepath.Join(e.Root, "simrt")
+	cmd.Env = GoEnv()
+	if out, err := cmd.CombinedOutput(); err != nil {
+		fmt.Printf("TROUBLE build racesense: %v\n%s\n", err, out)
+		return 2
+	}
+	rc := 0
+	for _, mode := range []string{"racy-slice", "racy-var", "racy-map", "locked", "independent"} {
+		reports, runs := 0, 0
+		traces := map[string]bool{}
+		for _, procs := range []string{"1", "4", "16"} {
+			for i := 0; i < 20; i++ {
+				c := exec.Command(bin, mode)
+				c.Env = append(os.Environ(), "GOMAXPROCS="+procs, "GORACE=halt_on_error=0 exitcode=0")
+				var stdout, stderr bytes.Buffer
+				c.Stdout, c.Stderr = &stdout, &stderr
+				if err := c.Run(); err != nil {
+					fmt.Printf("TROUBLE racesense %s: %v\n%s\n", mode, err, stderr.String())
+					return 2
+				}
+				runs++
+				if strings.Contains(stderr.String(), "DATA RACE") {
+					reports++
+				}
+				traces[strings.TrimSpace(stdout.String())] = true
+			}
+		}
+		want := 0
+		if strings.HasPrefix(mode, "racy") {
+			want = runs
+		}
+		status := "ok"
+		if reports != want || len(traces) != 1 {
+			status = "FAILED"
+			rc = 2
+		}
+		fmt.Printf("racesense %-12s reports in %d/%d executions (want %d), distinct schedule traces %d (want 1): %s\n", mode, reports, runs, want, len(traces), status)
+	}
+	return rc
 }
